@@ -774,6 +774,15 @@ func (g *vfGW) apply(evFull string) {
 			c.addr = vfIPAddr(arg(2))
 		}
 		g.w.mu.Unlock()
+	case "adddirect":
+		// adddirect:P / rmdirect:P -- the application tags / un-tags a peer as direct at run time
+		if err := g.n.ps.AddDirectPeer(peer.AddrInfo{ID: g.pid(arg(1))}); err != nil {
+			panic(err)
+		}
+	case "rmdirect":
+		if err := g.n.ps.RemoveDirectPeer(g.pid(arg(1))); err != nil {
+			panic(err)
+		}
 	case "pubgraft":
 		// pubgraft:P:LABEL:T -- ONE RPC frame carrying a payload message and a GRAFT
 		rpc := vfGraftRPC(arg(3))
